@@ -31,7 +31,7 @@ PROPERTY = {
 DELAYS = [0.05, 0.1, 0.2, 0.35, 0.15]
 
 
-def add_past_terms(draw, spec):
+def add_past_terms(draw, spec, mult_rate=8):
     spec = copy.deepcopy(spec)
     ops = sorted(o for nt in spec["ntypes"].values() for o in nt["ops"])
     n_terms = draw(st.integers(1, 3))
@@ -56,6 +56,9 @@ def add_past_terms(draw, spec):
             term = ["past", x, tau]
         c = draw(st.sampled_from([0.5, 1.0, 2.0, 0.3]))
         sign = draw(st.sampled_from(["+", "+", "+", "+", "+", "-"]))
+        if draw(st.integers(0, mult_rate - 1)) == 0:
+            # the delayed value multiplied with an instantaneous state variable
+            term = ["bin", "*", term, ["var", states[draw(st.integers(0, len(states) - 1))]]]
         e[2] = ["bin", sign, e[2], ["bin", "*", ["num", c], term]]
         pairs.append((o, x, tau))
     return spec, pairs
@@ -382,7 +385,12 @@ class RunArm(Arm):
         else:
             fine = 8
             ref = euler_mos(rm, steps * fine * 4, dt / (fine * 4))[::fine * 4][:steps]
+            ref_b = euler_mos(rm, steps * fine * 2, dt / (fine * 2))[::fine * 2][:steps]
             kw, tol = dict(rtol=1e-7, atol=1e-9), 3e-2
+            with np.errstate(all="ignore"):
+                if not np.all(np.isfinite(ref_b)) or np.max(np.abs(ref - ref_b) / (1.0 + np.abs(ref))) > tol / 4:
+                    res.rejected = "fine-step reference not converged (sensitive dynamics)"
+                    return res
         if not np.all(np.isfinite(ref)) or np.max(np.abs(ref)) > 1e6:
             res.rejected = "reference not benign"
             return res
